@@ -313,8 +313,15 @@ def _literal_len_bound(atom, pol, pname):
     some = None
     if pol and atom[1] == "is_some":
         some = atom[2]
-    if pol and len(atom) > 3 and ((atom[1] == "switch" and atom[3] == 1) or (atom[1] == "switch_not" and tuple(atom[3]) == (0,))) and atom[2].op == "discr":
-        some = atom[2].a[0]
+    if len(atom) > 3 and atom[1] in ("switch", "switch_not") and atom[2].op == "discr":
+        # Option discriminants: 0 = None, 1 = Some
+        is_some = None
+        if atom[1] == "switch" and atom[3] in (0, 1):
+            is_some = (atom[3] == 1) == bool(pol)
+        elif atom[1] == "switch_not" and tuple(atom[3]) in ((0,), (1,)):
+            is_some = (tuple(atom[3]) == (0,)) == bool(pol)
+        if is_some:
+            some = atom[2].a[0]
     if some is not None:
         if True:
             t = B.peel(some)
